@@ -66,10 +66,14 @@ pub fn c16_classes() -> Vec<metatype::Class> {
         Enum::with_values("Mode", ["ModeA", "ModeB", "ModeC"]),
         Enum::with_values("Flag", ["FlagA", "FlagB", "FlagC"]),
         Enum { name: "Flags".into(), alias: Some("Flag".into()), is_flag: true, values: vec!["FlagA".into(), "FlagB".into(), "FlagC".into()], ..Default::default() },
+        // scoped enumerations (`enum class`): the enumerator must be spelled WBase::Scoped::SA
+        Enum { name: "Scoped".into(), is_class: true, values: vec!["SA".into(), "SB".into(), "SC".into()], ..Default::default() },
+        Enum { name: "Level".into(), is_class: true, values: vec!["Low".into(), "SA".into(), "High".into()], ..Default::default() },
     ];
     let typed: Vec<(&str, &str)> = vec![
         ("i", "int"), ("j", "int"), ("u", "uint"), ("u2", "uint"), ("d", "double"), ("d2", "double"), ("b", "bool"), ("b2", "bool"),
         ("s", "QString"), ("s2", "QString"), ("mode", "WBase::Mode"), ("mode2", "Mode"), ("flags", "WBase::Flags"), ("flags2", "Flags"),
+        ("scoped", "WBase::Scoped"), ("scoped2", "Scoped"), ("level", "WBase::Level"),
         ("next", "WBase*"), ("next2", "WBase*"), ("items", "QStringList"), ("items2", "QStringList"), ("ints", "QList<int>"),
         ("ints2", "QList<int>"), ("var", "QVariant"), ("g", "WGadget"), ("g2", "WGadget"),
         ("title", "QString"), ("title1", "QString"), ("windowTitle1", "QString"), ("p1", "int"), ("p11", "int"), ("gBold", "bool"),
@@ -100,6 +104,7 @@ pub fn c16_classes() -> Vec<metatype::Class> {
         Method::with_argument_types("sigD", "void", ["double"]),
         Method::with_argument_types("sigMode", "void", ["WBase::Mode"]),
         Method::with_argument_types("sigFlags", "void", ["WBase::Flags"]),
+        Method::with_argument_types("sigScoped", "void", ["WBase::Scoped"]),
         Method::with_argument_types("sigNext", "void", ["WBase*"]),
         Method::with_argument_types("sigItems", "void", ["QStringList"]),
         Method::with_argument_types("sigVar", "void", ["QVariant"]),
@@ -439,6 +444,8 @@ struct Scan {
     uses_qdebug: bool,
     /// string literals in order: (is QStringLiteral argument, spelling), the tr context and the assert text excluded
     lits: Vec<(bool, String)>,
+    /// qualified names in operand position inside function bodies (= enumerator operands), in order
+    enums: Vec<String>,
     guard_index_exprs_ok: bool,
 }
 
@@ -621,6 +628,35 @@ fn scan_header(h: &str) -> Result<Scan, String> {
                     sc.uses_qdebug = true;
                 }
             }
+            // A::B(::C)* that is neither a call, a type (declaration, template argument), a pointer to member nor
+            // std::/BindingIndex::  — what remains in generated bodies are enumerator operands
+            if let Tok::Id(first) = t {
+                let starts = i == 0 || !is_p(&toks[i - 1], "::");
+                if starts && toks.get(i + 1).map(|t| is_p(t, "::")).unwrap_or(false) {
+                    let mut j = i;
+                    let mut parts = vec![first.clone()];
+                    while toks.get(j + 1).map(|t| is_p(t, "::")).unwrap_or(false) {
+                        match toks.get(j + 2).and_then(id_of) {
+                            Some(nm) => {
+                                parts.push(nm.to_owned());
+                                j += 2;
+                            }
+                            None => break,
+                        }
+                    }
+                    let next = toks.get(j + 1);
+                    let prev = if i >= 1 { Some(&toks[i - 1]) } else { None };
+                    let prevprev = if i >= 2 { Some(&toks[i - 2]) } else { None };
+                    let is_call = next.map(|t| is_p(t, "(") || is_p(t, "<") || is_p(t, "{")).unwrap_or(false);
+                    let is_decl = next.map(|t| matches!(t, Tok::Id(_)) || is_p(t, "*") && matches!(toks.get(j + 2), Some(Tok::Id(_))) && matches!(toks.get(j + 3), Some(Tok::P(p)) if p == ";")).unwrap_or(false);
+                    let is_targ = prev.map(|t| is_p(t, "<")).unwrap_or(false) && next.map(|t| is_p(t, ">") || is_p(t, "*")).unwrap_or(false);
+                    let is_pmf = prev.map(|t| is_p(t, "&")).unwrap_or(false) && prevprev.map(|t| is_p(t, "(")).unwrap_or(false);
+                    let reserved = first == "std" || first == "BindingIndex";
+                    if !(is_call || is_decl || is_targ || is_pmf || reserved) {
+                        sc.enums.push(parts.join("::"));
+                    }
+                }
+            }
             if let Tok::Str(s) = t {
                 let prev = if i >= 2 { id_of(&toks[i - 2]) } else { None };
                 let is_ctx = prev == Some("translate") && is_p(&toks[i - 1], "(");
@@ -765,6 +801,7 @@ fn inventory(sc: &Scan) -> Sexp {
         node("guard", vec![sc.guard.map(num).unwrap_or(atom("none"))]),
         node("observers", sc.observers.iter().map(|(n, k)| list(vec![st(n.clone()), num(*k)])).collect()),
         node("lits", sc.lits.iter().map(|(q, s)| node(if *q { "q" } else { "c" }, vec![st(s.clone())])).collect()),
+        node("enums", sc.enums.iter().map(|s| st(s.clone())).collect()),
     ])
 }
 
@@ -962,6 +999,7 @@ const OPERANDS: &[(&str, &[&str], &[&str], &str)] = &[
     ("string", &["le.text", "v.s"], &["\"x\"", "\"\""], "s"),
     ("enum", &["v.mode", "v2.mode2"], &["WBase.ModeA"], "mode"),
     ("flags", &["v.flags", "v2.flags2"], &["WBase.FlagA", "(WBase.FlagA | WBase.FlagB)"], "flags"),
+    ("scoped", &["v.scoped", "v2.scoped2"], &["WBase.Scoped.SA", "WBase.Scoped.SC"], "scoped"),
     ("ptr", &["v.next", "v2.next2"], &["null", "v", "vd"], "next"),
     ("slist", &["v.items", "v2.items2"], &["[\"a\"]", "[]"], "items"),
     ("ilist", &["v.ints", "v2.ints2"], &["[1, 2]", "[]"], "ints"),
@@ -1314,17 +1352,35 @@ fn collision_docs() -> Vec<String> {
 enum Code {
     /// (dynamic?, observers, builtin uses, literals in emission order: (is QString, text))
     Expr(bool, usize, Vec<&'static str>, Vec<(bool, String)>),
+    /// … plus the enumerator operands in emission order
+    ExprE(bool, usize, Vec<&'static str>, Vec<(bool, String)>, Vec<EnumUse>),
     Gadget(Vec<(String, Code)>),
+}
+
+/// an enumerator as the generator knows it from the metatypes: (C++ name of the enumeration's parent, enumeration,
+/// `enum class`?, enumerator)
+#[derive(Clone, Debug, PartialEq)]
+struct EnumUse {
+    parent: &'static str,
+    enum_name: &'static str,
+    scoped: bool,
+    variant: &'static str,
+}
+
+fn enums_sexp(es: &[EnumUse]) -> Sexp {
+    node("enums", es.iter().map(|e| node("ev", vec![st(e.parent), st(e.enum_name), atom(if e.scoped { "scoped" } else { "unscoped" }), st(e.variant)])).collect())
 }
 
 impl Code {
     fn sexp(&self) -> Sexp {
         match self {
-            Code::Expr(dynamic, obs, uses, lits) => node("e", vec![
+            Code::Expr(dynamic, obs, uses, lits) => Code::ExprE(*dynamic, *obs, uses.clone(), lits.clone(), vec![]).sexp(),
+            Code::ExprE(dynamic, obs, uses, lits, enums) => node("e", vec![
                 atom(if *dynamic { "dyn" } else { "const" }),
                 num(*obs),
                 node("uses", uses.iter().map(|u| atom(*u)).collect()),
                 node("lits", lits.iter().map(|(q, s)| node(if *q { "q" } else { "c" }, vec![st(s.clone())])).collect()),
+                enums_sexp(enums),
             ]),
             Code::Gadget(ms) => node("g", ms.iter().map(|(n, c)| node("p", vec![st(n.clone()), c.sexp()])).collect()),
         }
@@ -1549,6 +1605,129 @@ fn split_family_doc(rng: &mut Rng) -> (String, Sexp) {
     (with_fixture(root).to_qml(), node("objs", descr))
 }
 
+// ---- enumerator spellings: every kind of enumeration x every position an enumerator operand can take
+
+/// (QML spelling prefix, C++ parent, enumeration, scoped?, two enumerators, WBase property of that type if any, label)
+#[allow(clippy::type_complexity)]
+const ENUMERATIONS: &[(&str, &str, &str, bool, &str, &str, Option<&str>, &str)] = &[
+    ("WBase.", "WBase", "Mode", false, "ModeA", "ModeC", Some("mode"), "class-unscoped"),
+    ("WBase.Scoped.", "WBase", "Scoped", true, "SA", "SC", Some("scoped"), "class-scoped"),
+    ("WBase.Level.", "WBase", "Level", true, "SA", "High", Some("level"), "class-scoped"),
+    ("WBase.", "WBase", "Flags", false, "FlagA", "FlagC", Some("flags"), "flag-alias"),
+    ("Qt.", "Qt", "Alignment", false, "AlignLeft", "AlignRight", None, "namespace-flag-alias"),
+    ("Qt.", "Qt", "TextElideMode", false, "ElideLeft", "ElideRight", None, "namespace-unscoped"),
+    ("Qt.", "Qt", "Orientations", false, "Horizontal", "Vertical", None, "namespace-enum-with-flag-alias"),
+    ("Qt.HighDpiScaleFactorRoundingPolicy.", "Qt", "HighDpiScaleFactorRoundingPolicy", true, "Round", "Ceil", None, "namespace-scoped"),
+    ("QActionGroup.ExclusionPolicy.", "QActionGroup", "ExclusionPolicy", true, "Exclusive", "ExclusiveOptional", None, "qt-class-scoped"),
+    ("QAbstractItemModel.CheckIndexOption.", "QAbstractItemModel", "CheckIndexOption", true, "NoOption", "IndexIsValid", None, "qt-class-scoped"),
+    ("QCalendar.System.", "QCalendar", "System", true, "Gregorian", "Julian", None, "qt-gadget-scoped"),
+    ("QColorSpace.Primaries.", "QColorSpace", "Primaries", true, "SRgb", "Custom", None, "qt-gadget-scoped"),
+    ("QColorSpace.TransferFunction.", "QColorSpace", "TransferFunction", true, "SRgb", "Linear", None, "qt-gadget-scoped"),
+    ("QHighDpiScaling.DpiAdjustmentPolicy.", "QHighDpiScaling", "DpiAdjustmentPolicy", true, "Enabled", "Unset", None, "qt-gadget-scoped"),
+    ("QFont.", "QFont", "StyleStrategy", false, "PreferAntialias", "NoAntialias", None, "qt-gadget-unscoped"),
+    ("QSizePolicy.", "QSizePolicy", "Policy", false, "Expanding", "Fixed", None, "qt-gadget-unscoped"),
+    ("QLineEdit.", "QLineEdit", "EchoMode", false, "Normal", "Password", None, "qt-class-unscoped"),
+    ("QFrame.", "QFrame", "Shape", false, "Box", "Panel", None, "qt-class-unscoped"),
+];
+
+/// One binding (or callback) using the two enumerators of `en` at position `ctx`; returns (lhs, rhs, code/callback
+/// description) — `None` when the position needs a property of the enumeration's type and WBase has none.
+#[allow(clippy::type_complexity)]
+fn enum_use(en: &(&'static str, &'static str, &'static str, bool, &'static str, &'static str, Option<&'static str>, &'static str), ctx: usize) -> Option<(String, String, Option<Code>, Vec<EnumUse>)> {
+    let (pfx, parent, ename, scoped, va, vb, prop, _) = *en;
+    let a = format!("{pfx}{va}");
+    let b = format!("{pfx}{vb}");
+    let ua = EnumUse { parent, enum_name: ename, scoped, variant: va };
+    let ub = EnumUse { parent, enum_name: ename, scoped, variant: vb };
+    let expr = |dynamic: bool, es: Vec<EnumUse>| Some(Code::ExprE(dynamic, 0, vec![], vec![], es));
+    Some(match ctx {
+        // ternary + cast
+        0 => ("i".into(), format!("(cb.checked ? {a} : {b}) as int"), expr(true, vec![ua.clone(), ub.clone()]), vec![]),
+        // comparison
+        1 => ("b".into(), format!("(cb.checked ? {a} : {b}) == {a}"), expr(true, vec![ua.clone(), ub.clone(), ua.clone()]), vec![]),
+        // switch case labels
+        2 => (
+            "j".into(),
+            format!("{{ switch (cb.checked ? {a} : {b}) {{ case {a}: return 1; case {b}: return 2; default: return sb.value }} }}"),
+            expr(true, vec![ua.clone(), ub.clone(), ua.clone(), ub.clone()]),
+            vec![],
+        ),
+        // callback body
+        3 => ("onFired".into(), format!("{{ let e = cb2.checked ? {b} : {a}; v.i = e as int }}"), None, vec![ub.clone(), ua.clone()]),
+        // gadget sub-binding (through a cast: works for every enumeration), with a constant member next to it
+        4 => ("font.pointSize".into(), format!("(cb.checked ? {a} : {b}) as int"), expr(true, vec![ua.clone(), ub.clone()]), vec![]),
+        // value of the enumeration's own type: ternary of two enumerators / enumerator and property
+        5 => (prop?.to_owned(), format!("cb.checked ? {a} : {b}"), expr(true, vec![ua.clone(), ub.clone()]), vec![]),
+        6 => (prop?.to_owned(), format!("cb.checked ? v.{} : {b}", prop?), expr(true, vec![ub.clone()]), vec![]),
+        // `!=` with a property and `as uint`
+        7 => ("u".into(), format!("(v.{} != {b} ? {a} : {b}) as uint", prop?), expr(true, vec![ub.clone(), ua.clone(), ub.clone()]), vec![]),
+        // callback with a parameter of the enumeration type
+        _ => return None,
+    })
+}
+
+/// A document of 2–6 enumerator uses (random enumeration x position), with its description.
+fn enum_family_doc(rng: &mut Rng) -> (String, Sexp) {
+    let mut root = Obj::new("QWidget").with_id("root");
+    let mut descr = vec![];
+    let n = 2 + rng.below(5);
+    let mut k = 0;
+    while root.children.len() < n && k < 40 {
+        k += 1;
+        let en = rng.pick(ENUMERATIONS);
+        let ctx = rng.below(8);
+        let Some((lhs, rhs, code, cb_enums)) = enum_use(en, ctx) else { continue };
+        let id = format!("e{}", root.children.len());
+        let mut o = Obj::new("WBase").with_id(&id).bind(&lhs, &rhs);
+        let mut props: Vec<(String, Code)> = vec![];
+        let mut cbs = vec![];
+        match code {
+            Some(c) => {
+                let path: Vec<&str> = lhs.split('.').collect();
+                insert_path(&mut props, &path, c);
+                // a constant gadget member spelled with an enumerator is emitted, too
+                if lhs.starts_with("font.") && rng.chance(1, 2) {
+                    o = o.bind("font.styleStrategy", "QFont.PreferQuality");
+                    insert_path(&mut props, &["font", "styleStrategy"], Code::ExprE(false, 0, vec![], vec![], vec![EnumUse { parent: "QFont", enum_name: "StyleStrategy", scoped: false, variant: "PreferQuality" }]));
+                }
+            }
+            None => cbs.push(("fired", cb_enums)),
+        }
+        root.children.push(o);
+        descr.push(node("o", vec![
+            st(id),
+            node("props", props.iter().map(|(n, c)| node("p", vec![st(n.clone()), c.sexp()])).collect()),
+            node("cbs", cbs.iter().map(|(sig, es)| node("cb", vec![st(*sig), node("uses", vec![]), node("lits", vec![]), enums_sexp(es)])).collect()),
+        ]));
+    }
+    (with_fixture(root).to_qml(), node("objs", descr))
+}
+
+/// compile-only positions of enumerators (log streams, callback parameters, lists, method arguments, casts of properties)
+fn enum_probes() -> Vec<(String, String)> {
+    let mut v = vec![];
+    for en in ENUMERATIONS {
+        let (pfx, _, _, _, va, vb, prop, label) = *en;
+        let a = format!("{pfx}{va}");
+        let b = format!("{pfx}{vb}");
+        for ctx in 0..8 {
+            if let Some((lhs, rhs, _, _)) = enum_use(en, ctx) {
+                v.push((format!("enum/{label}/pos{ctx}"), stmt_doc(&lhs, &rhs)));
+            }
+        }
+        v.push((format!("enum/{label}/log"), stmt_doc("onFired", &format!("console.log({a}, cb.checked ? {a} : {b})"))));
+        v.push((format!("enum/{label}/nested"), stmt_doc("i", &format!("{{ let e = cb.checked ? {a} : {b}; if (e == {b}) {{ return ({a}) as int }} return (e as int) + sb.value }}"))));
+        v.push((format!("enum/{label}/list"), stmt_doc("onFired", &format!("{{ let l = [{a}, {b}]; v.i = l[sb.value] as int }}"))));
+        if let Some(p) = prop {
+            v.push((format!("enum/{label}/assign"), stmt_doc("onFired", &format!("{{ v.{p} = {a}; v2.{p} = cb.checked ? {b} : v.{p} }}"))));
+            v.push((format!("enum/{label}/case-property"), stmt_doc("s", &format!("{{ switch (v.{p}) {{ case {a}: return \"a\"; case {b}: return le.text; default: break }} return \"\" }}"))));
+        }
+    }
+    v.push(("enum/callback-param".into(), stmt_doc("onSigScoped", "function(s: WBase.Scoped) { v.scoped = s; if (s == WBase.Scoped.SB) { v.level = WBase.Level.SA } }")));
+    v.push(("enum/callback-param".into(), stmt_doc("onSigMode", "function(m: WBase.Mode) { v.mode = m == WBase.ModeA ? WBase.ModeB : m }")));
+    v
+}
+
 /// bodies whose return type cannot be verified must be REJECTED — in a gadget sub-binding exactly as in a plain one
 fn must_reject_docs() -> Vec<(String, &'static str)> {
     let mut v = vec![];
@@ -1587,7 +1766,7 @@ fn insert_path(ms: &mut Vec<(String, Code)>, path: &[&str], leaf: Code) {
 
 fn is_dynamic(c: &Code) -> bool {
     match c {
-        Code::Expr(d, ..) => *d,
+        Code::Expr(d, ..) | Code::ExprE(d, ..) => *d,
         Code::Gadget(ms) => ms.iter().any(|(_, c)| is_dynamic(c)),
     }
 }
@@ -1641,7 +1820,15 @@ fn inventory_doc(rng: &mut Rng) -> (String, Sexp) {
                     let extra = if name == "font" { "underline" } else { "horizontalPolicy" };
                     let rhs = if name == "font" { "cb2.checked" } else { "cb2.checked ? QSizePolicy.Fixed : QSizePolicy.Expanding" };
                     o.bindings.push((format!("{name}.{extra}"), rhs.into()));
-                    ms.push((extra.into(), Code::Expr(true, 0, vec![], vec![])));
+                    let enums = if name == "font" {
+                        vec![]
+                    } else {
+                        vec![
+                            EnumUse { parent: "QSizePolicy", enum_name: "Policy", scoped: false, variant: "Fixed" },
+                            EnumUse { parent: "QSizePolicy", enum_name: "Policy", scoped: false, variant: "Expanding" },
+                        ]
+                    };
+                    ms.push((extra.into(), Code::ExprE(true, 0, vec![], vec![], enums)));
                 }
             }
         }
@@ -1688,7 +1875,8 @@ impl Stream for C16 {
         let mut cases = vec![];
         // (a) compile oracle ------------------------------------------------------------------------------------
         // operator/builtin probes, one document per expression, batched
-        let probes = operator_probes();
+        let mut probes = operator_probes();
+        probes.extend(enum_probes());
         for (b, chunk) in probes.chunks(110).enumerate() {
             let docs: Vec<(String, String)> = chunk.iter().enumerate().map(|(k, (_, src))| (format!("P{b}x{k}"), src.clone())).collect();
             let mut labels: BTreeSet<String> = chunk.iter().map(|(l, _)| l.split('/').next().unwrap().to_owned()).collect();
@@ -1765,6 +1953,24 @@ impl Stream for C16 {
             cases.push(Case { kind: "model", labels: vec!["inventory".into(), "name-split".into()], request: node("c16-inv", vec![st(src.clone()), st("Inv"), objs]) });
             cases.push(Case { kind: "oracle", labels: vec!["scan".into(), "name-split".into()], request: node("c16-scan", vec![st("Inv"), st(src.clone())]) });
             inv_docs.push((format!("S{made}"), src));
+        }
+        // enumerator spellings: model + scan + compiler
+        let nenum = if thorough { 1500 } else { 160 };
+        let mut k = 0u64;
+        let mut made = 0;
+        while made < nenum && k < (nenum as u64) * 4 {
+            let mut rng = Rng::fork(seed, "c16-enum", k);
+            k += 1;
+            let (src, objs) = enum_family_doc(&mut rng);
+            if self.translate("Inv", &src).is_none() {
+                continue;
+            }
+            made += 1;
+            cases.push(Case { kind: "model", labels: vec!["inventory".into(), "enum-spelling".into()], request: node("c16-inv", vec![st(src.clone()), st("Inv"), objs]) });
+            if made % 2 == 0 {
+                cases.push(Case { kind: "oracle", labels: vec!["scan".into(), "enum-spelling".into()], request: node("c16-scan", vec![st("Inv"), st(src.clone())]) });
+            }
+            inv_docs.push((format!("E{made}"), src));
         }
         for (doc, needle) in must_reject_docs() {
             cases.push(Case { kind: "oracle", labels: vec!["must-reject".into()], request: node("c16-rejects", vec![st(doc), st(needle)]) });
